@@ -11,6 +11,7 @@ NOTE = ("Trusts clang 14's parser, Sema and CFG builder, the condition normalisa
         "Value clauses listed as not decided in the evidence are outside the claim.")
 
 CLAIMED = {
+ "C12": ("E-ESCAPE", "Exception-escape propagation (all trigger classes, jsoncpp shape errors included) from the configuration-loading call edges of main(), the drop-in watcher thread entry and DropInServiceAdaptor::updateDropIns; a full-consumption rule on every std::sto* that converts configuration text (followed through the strict helper's position parameter); guard dominance of the float->integer conversion in parseSize and of the megabyte shift; parser/destination type agreement for every addArgumentCustom; a sibling rule over all plugin init overrides and PluginArgParser::parse's error edges; the JSON front end's invalid-plugin return; null-on-failure and IR order of the compile functions. Decided for all configuration texts at once; exact byte values of valid sizes are not decided.", "4/C12"),
  "C10": ("E-ESCAPE", "Exception-escape propagation over the whole-library call graph (try/handler type lattice, guard idioms for optional/SystemMaybe/map::at/getParent) from the four main-loop calls, an index-guard rule on every index into a control file's line vector (including the PSI parser through a summary of getPsiFormat), sibling agreement of readDirFromDIR's d_type and fstatat branches, erase-in-iteration over all tick-reachable functions, the by-fd discipline (path based opens only at audited sites) and a frozen table of abort sites. Decides these for every fault sequence of the stated model at once; freedom from all UB and from hangs is not decided, and std::sto* on present kernel files is outside the fault model.", "4/C10"),
  "C11": ("E-PATH", "Static rules on the ruleset-cgroup instance management: per-iteration at-most-once / exactly-once execution of the matching cgroup's instance with condition splitting on the xattr filter, creation only when absent and keyed consistently by absolute path, visited marking, erase-in-iteration freedom of the drop loop, prerun reaching every live instance, fresh plugin ownership of new instances and the default cgroup argument. Decided for all histories of cgroups appearing/disappearing because it is a property of the code paths; detector window values are not decided.", "4/C11"),
  "C13": ("E-PATH", "Pairing and ordering rules on the drop-in machinery: a successful add is exactly emplace_front + markDropInTargeted + stat(+1), a refused add leaves nothing; removal erases by tag, untargets once per erased drop-in and subtracts the same count; partially added units are cleaned up; merge moves parts only under their permission flag; targets are fresh compiles of the base; updates remove before re-adding; drop-ins front-to-back before their base. These are the structural pre-conditions of reversibility; the state equation over all operation sequences is not decided.", "4/C13"),
